@@ -1,7 +1,176 @@
-/- stub: overwritten by the builder of this engine -/
-import Driver.Common
+/-
+Driver for the budgeted expansion and the tree-editing operators of `Model/Fuzz.lean`.
+
+fnode   := ["lit", leaf, d, key] | ["re", id, d, key] | ["nt", name, sender|null, recipient|null, d]
+         | ["alt", id, d, [fnode…]] | ["cat", id, d, [fnode…]]
+         | ["rep", id, kind, d, fnode, min, max|null]
+fgrammar:= {"rules": [[name, fnode]…], "gens": [[name, [dep…]]…], "cap": n}
+choice  := ["alt", k] | ["rep", k] | ["re", id, leaf] | ["gen", tree]
+atree   := ["n", name, sender, recipient, ro, [[id, iter, rep]…], [atree…]]
+         | ["t"|"b"|"i", payload, sender, recipient, ro, [[id, iter, rep]…]]
+
+  {"op":"expand","grammar":G,"start":s,"path":[…],"budget":b,"tape":[…],"fuel":n}
+        → {"tree": tree|null, "rest": n}
+  {"op":"insert","grammar":G,"rep":fnode,"path":[…],"start_rep":k,"nr":k,"tape":[…],"fuel":n}
+        → {"kids": [tree…]|null, "rest": n}
+  {"op":"replace","tree":atree,"repl":[[path, atree]…],"cur":[…],"fuel":n} → {"tree": atree|null}
+  {"op":"delete","tree":atree,"id":s,"iter":k,"nr":k} → {"tree": atree}
+  {"op":"split_end"|"prefix","tree":atree,"path":[…]} → {"tree": atree}
+  {"op":"collapse","tree":tree} → {"trees":[tree…]}
+-/
+import Driver.IRJson
+import Model.Fuzz
 open Lean FV FV.Drv
 
-def handle (_ : Json) : Except String Json := throw "driver not implemented"
+namespace FV.Drv
+
+def intOf (j : Json) : Except String Int := j.getInt?
+
+def optNat (j : Json) : Except String (Option Nat) :=
+  match j with
+  | Json.null => pure none
+  | m => do pure (some (← m.getNat?))
+
+partial def fnodeOf (j : Json) : Except String FNode := do
+  let a ← j.getArr?
+  let tag ← (a[0]?.getD Json.null).getStr?
+  let el (i : Nat) : Json := a[i]?.getD Json.null
+  match tag with
+  | "lit" => return .term (.lit (← leafOfJson (el 1))) (← (el 2).getNat?) (← (el 3).getNat?)
+  | "re" => return .term (.regex (← (el 1).getNat?)) (← (el 2).getNat?) (← (el 3).getNat?)
+  | "nt" => return .nt (← (el 1).getStr?) (optStr (el 2)) (optStr (el 3)) (← (el 4).getNat?)
+  | "alt" =>
+    let ns ← (← (el 3).getArr?).toList.mapM fnodeOf
+    return .alt (← (el 1).getStr?) (← (el 2).getNat?) ns
+  | "cat" =>
+    let ns ← (← (el 3).getArr?).toList.mapM fnodeOf
+    return .cat (← (el 1).getStr?) (← (el 2).getNat?) ns
+  | "rep" =>
+    let n ← fnodeOf (el 4)
+    return .rep (← (el 1).getStr?) (← kindOf (← (el 2).getStr?)) (← (el 3).getNat?) n
+      (← (el 5).getNat?) (← optNat (el 6))
+  | _ => throw s!"bad fnode tag {tag}"
+
+def strList (j : Json) : Except String (List String) := do
+  (← j.getArr?).toList.mapM (fun x => x.getStr?)
+
+def fgrammarOf (j : Json) : Except String FGrammar := do
+  let rs ← (← j.getObjVal? "rules").getArr?
+  let rules ← rs.toList.mapM (fun r => do
+    let a ← r.getArr?
+    pure ((← (a[0]?.getD Json.null).getStr?), (← fnodeOf (a[1]?.getD Json.null))))
+  let gs ← (← j.getObjVal? "gens").getArr?
+  let gens ← gs.toList.mapM (fun r => do
+    let a ← r.getArr?
+    pure ((← (a[0]?.getD Json.null).getStr?), (← strList (a[1]?.getD Json.null))))
+  return { rules := rules, gens := gens, cap := (← (← j.getObjVal? "cap").getNat?) }
+
+def choiceOf (j : Json) : Except String Choice := do
+  let a ← j.getArr?
+  let tag ← (a[0]?.getD Json.null).getStr?
+  let el (i : Nat) : Json := a[i]?.getD Json.null
+  match tag with
+  | "alt" => return .alt (← (el 1).getNat?)
+  | "rep" => return .rep (← (el 1).getNat?)
+  | "re" => return .regex (← (el 1).getNat?) (← leafOfJson (el 2))
+  | "gen" => return .gen (← treeOf (el 1))
+  | _ => throw s!"bad choice tag {tag}"
+
+def tagOf (j : Json) : Except String Tag := do
+  let a ← j.getArr?
+  pure ((← (a[0]?.getD Json.null).getStr?), (← (a[1]?.getD Json.null).getNat?), (← (a[2]?.getD Json.null).getNat?))
+
+def boolOf (j : Json) : Except String Bool :=
+  match j with
+  | Json.bool b => pure b
+  | _ => throw "expected a boolean"
+
+partial def atreeOf (j : Json) : Except String ATree := do
+  let a ← j.getArr?
+  let tag ← (a[0]?.getD Json.null).getStr?
+  let el (i : Nat) : Json := a[i]?.getD Json.null
+  match tag with
+  | "n" =>
+    let ks ← (← (el 6).getArr?).toList.mapM atreeOf
+    let o ← (← (el 5).getArr?).toList.mapM tagOf
+    return .mk (.nt (← (el 1).getStr?)) (optStr (el 2)) (optStr (el 3)) (← boolOf (el 4)) o ks
+  | "s" => throw "slice trees are not part of this model"
+  | _ =>
+    let l ← leafOf tag (el 1)
+    let o ← (← (el 5).getArr?).toList.mapM tagOf
+    return .mk (.term l) (optStr (el 2)) (optStr (el 3)) (← boolOf (el 4)) o []
+
+def jTag (t : Tag) : Json :=
+  Json.arr #[Json.str t.1, Json.num (JsonNumber.fromNat t.2.1), Json.num (JsonNumber.fromNat t.2.2)]
+
+partial def jATree : ATree → Json
+  | .mk (.nt n) a r ro o ks =>
+    Json.arr #["n", Json.str n, jOptStr a, jOptStr r, Json.bool ro, Json.arr (o.map jTag).toArray,
+      Json.arr (ks.map jATree).toArray]
+  | .mk (.term l) a r ro o _ =>
+    match jLeaf l with
+    | Json.arr x => Json.arr #[x[0]?.getD Json.null, x[1]?.getD Json.null, jOptStr a, jOptStr r, Json.bool ro,
+        Json.arr (o.map jTag).toArray]
+    | other => other
+  | .mk .slice _ _ _ _ ks => Json.arr #["s", Json.arr (ks.map jATree).toArray]
+
+end FV.Drv
+
+def handle (j : Json) : Except String Json := do
+  let op ← j.getObjValAs? String "op"
+  match op with
+  | "expand" =>
+    let G ← fgrammarOf (← j.getObjVal? "grammar")
+    let start ← j.getObjValAs? String "start"
+    let path ← strList (← j.getObjVal? "path")
+    let b ← intOf (← j.getObjVal? "budget")
+    let tape ← (← (← j.getObjVal? "tape").getArr?).toList.mapM choiceOf
+    let fuel ← (← j.getObjVal? "fuel").getNat?
+    match fuzzStart G fuel start path b tape with
+    | some (t, rest) => return Json.mkObj [("tree", jTree t), ("rest", Json.num (JsonNumber.fromNat rest.length))]
+    | none => return Json.mkObj [("tree", Json.null), ("rest", Json.num 0)]
+  | "insert" =>
+    let G ← fgrammarOf (← j.getObjVal? "grammar")
+    let rep ← fnodeOf (← j.getObjVal? "rep")
+    let path ← strList (← j.getObjVal? "path")
+    let startRep ← (← j.getObjVal? "start_rep").getNat?
+    let nr ← (← j.getObjVal? "nr").getNat?
+    let tape ← (← (← j.getObjVal? "tape").getArr?).toList.mapM choiceOf
+    let fuel ← (← j.getObjVal? "fuel").getNat?
+    match rep with
+    | .rep _ _ d n mn _ =>
+      match insertFuzz G fuel n mn d path startRep nr tape with
+      | some (f, rest) =>
+        return Json.mkObj [("kids", Json.arr (f.map jTree).toArray), ("rest", Json.num (JsonNumber.fromNat rest.length))]
+      | none => return Json.mkObj [("kids", Json.null), ("rest", Json.num 0)]
+    | _ => throw "insert: not a repetition node"
+  | "replace" =>
+    let t ← atreeOf (← j.getObjVal? "tree")
+    let repl ← (← (← j.getObjVal? "repl").getArr?).toList.mapM (fun e => do
+      let a ← e.getArr?
+      pure ((← natArr (a[0]?.getD Json.null)), (← atreeOf (a[1]?.getD Json.null))))
+    let cur ← natArr (← j.getObjVal? "cur")
+    let fuel ← (← j.getObjVal? "fuel").getNat?
+    match replM repl fuel cur t with
+    | some t' => return Json.mkObj [("tree", jATree t')]
+    | none => return Json.mkObj [("tree", Json.null)]
+  | "delete" =>
+    let t ← atreeOf (← j.getObjVal? "tree")
+    let id ← j.getObjValAs? String "id"
+    let iter ← (← j.getObjVal? "iter").getNat?
+    let nr ← (← j.getObjVal? "nr").getNat?
+    return Json.mkObj [("tree", jATree (deleteReps id iter nr t))]
+  | "split_end" =>
+    let t ← atreeOf (← j.getObjVal? "tree")
+    let p ← natArr (← j.getObjVal? "path")
+    return Json.mkObj [("tree", jATree (splitEnd t p))]
+  | "prefix" =>
+    let t ← atreeOf (← j.getObjVal? "tree")
+    let p ← natArr (← j.getObjVal? "path")
+    return Json.mkObj [("tree", jATree (prefixOf t p))]
+  | "collapse" =>
+    let t ← treeOf (← j.getObjVal? "tree")
+    return Json.mkObj [("trees", Json.arr ((collapse t).map jTree).toArray)]
+  | _ => throw s!"unknown op {op}"
 
 def main : IO Unit := run handle
